@@ -32,7 +32,13 @@ MANIFEST = dict(
           "(also after the re-lock/re-peek that follows a timer tick, stale or not: a stale tick only costs a loop iteration); "
           "a returned element is expired; nothing is lost or duplicated (queue ++ removed is a permutation of inserted, "
           "returned elements are distinct); len <= cap; a call about to return a context error has not touched the queue; the "
-          "'cannot happen' error after Peek cannot happen. The model is tied to the code by the sync skeletons of every function "
+          "'cannot happen' error after Peek cannot happen. Review additions (Ekit/Props/C08Rev.lean): every Dequeue call that "
+          "returns y contains its own pop of y between invocation and response, so any element present in the queue in every "
+          "state of the call has a deadline >= y's (c08_whole_call_earliest: the property's 'whole duration of that call' "
+          "clause, literally); and every TIMED history (invocations, responses and clock ticks) is a history of the timed "
+          "atomic automaton whose clock only the ticks move and in which Dequeue takes effect only on a present, expired, "
+          "minimal element (c08_linearizable_clocked; in c08_linearizable_timed the specification's clock is free, so that "
+          "theorem alone says nothing about time). The model is tied to the code by the sync skeletons of every function "
           "of delay_queue.go regenerated on each run, and by timed concurrent histories of the real queue under "
           "GODEBUG=asynctimerchan=0 and =1 which the model must explain (linearization search over runs of the model's step "
           "function inside the calls' time brackets) and the property's own monitors must accept."),
